@@ -3,8 +3,10 @@ package c06
 
 import (
 	"bytes"
-	"runtime"
 	"fmt"
+	"os"
+	"path/filepath"
+	"runtime"
 	"strings"
 	"sync/atomic"
 	"testing"
@@ -36,25 +38,26 @@ type scenario struct {
 	lineLen   int
 	closeAt   int64
 	throttle  int
+	spool     bool
 }
 
 func (s scenario) String() string {
-	return fmt.Sprintf("%s/%s connbuf=%d iobuf=%d flush=%s volume=%dB linelen=%d closeAfter=%d throttle=%dB/ms", s.behaviour, s.rtype, s.connbuf, s.iobuf, s.flush, s.volume, s.lineLen, s.closeAt, s.throttle)
+	return fmt.Sprintf("%s/%s spool=%v connbuf=%d iobuf=%d flush=%s volume=%dB linelen=%d closeAfter=%d throttle=%dB/ms", s.behaviour, s.rtype, s.spool, s.connbuf, s.iobuf, s.flush, s.volume, s.lineLen, s.closeAt, s.throttle)
 }
 
 type outcome struct {
-	stalled     bool
-	starved     bool
-	stacks      string
-	stallAt     int
-	maxLatency  time.Duration
-	handed      int
-	received    int
-	slowConn    int64
-	connDown    int64
-	capGot      int
-	backlog     bool // the endpoint demonstrably did not keep up (drops or unread data)
-	accountErr  string
+	stalled      bool
+	starved      bool
+	stacks       string
+	stallAt      int
+	maxLatency   time.Duration
+	handed       int
+	received     int
+	slowConn     int64
+	connDown     int64
+	capGot       int
+	backlog      bool // the endpoint demonstrably did not keep up (drops or unread data)
+	accountErr   string
 	incarnations int
 }
 
@@ -73,7 +76,18 @@ func run(sc scenario) outcome {
 		addr = e.Addr
 	}
 	rkey := "c06r"
-	d, err := dest.New(rkey, matcher.Matcher{}, addr, "/nonexistent-spool", false, false, sc.flush, 20*time.Millisecond, sc.connbuf, sc.iobuf, 10, 1000, 1000, time.Second, time.Millisecond, time.Millisecond)
+	spoolDir := "/nonexistent-spool"
+	if sc.spool {
+		base := os.Getenv("VERIF_SCRATCH")
+		if base == "" {
+			base = os.TempDir()
+		}
+		spoolDir = filepath.Join(base, fmt.Sprintf("c06spool-%d-%d", os.Getpid(), runSeq))
+		os.RemoveAll(spoolDir)
+		os.MkdirAll(spoolDir, 0755)
+		defer os.RemoveAll(spoolDir)
+	}
+	d, err := dest.New(rkey, matcher.Matcher{}, addr, spoolDir, sc.spool, false, sc.flush, 20*time.Millisecond, sc.connbuf, sc.iobuf, 10, 1<<20, 1000, time.Second, time.Millisecond, time.Millisecond)
 	if err != nil {
 		panic("HARNESS-ERROR: " + err.Error())
 	}
@@ -128,13 +142,15 @@ func run(sc scenario) outcome {
 	n := sc.volume / (sc.lineLen + 1)
 	pad := strings.Repeat("x", sc.lineLen)
 	var progress int64
+	var abandon int32 // set when the run is given up (stall / starvation): the pusher stops as soon as it gets unblocked
+	myRun := runSeq
 	var maxLat, maxLatTicks int64
 	var canary int64
 	done := make(chan struct{})
 	go func() {
 		defer close(done)
-		for i := 0; i < n; i++ {
-			name := fmt.Sprintf("c06.%d.%d.%s", runSeq, i, pad)
+		for i := 0; i < n && atomic.LoadInt32(&abandon) == 0; i++ {
+			name := fmt.Sprintf("c06.%d.%d.%s", myRun, i, pad)
 			line := []byte(name[:sc.lineLen-13] + " 1 1500000000")
 			c0 := atomic.LoadInt64(&canary)
 			t0 := time.Now()
@@ -198,16 +214,29 @@ func run(sc scenario) outcome {
 		}
 	}
 	if out.stalled || out.starved {
+		atomic.StoreInt32(&abandon, 1)
 		if e != nil {
 			e.SetMode(ep.Healthy)
 		}
 		return out // leave the wedged pieces alone
 	}
-	out.capGot = len(cap.Lines())
+	// only this run's lines: the pusher of an earlier run that stalled (and was left alone) may still be handing its
+	// remaining lines to the process-wide table
+	mine := fmt.Sprintf("c06.%d.", runSeq)
+	for _, l := range cap.Lines() {
+		if strings.HasPrefix(l, mine) {
+			out.capGot++
+		}
+	}
 
 	// steady-state accounting
 	switch sc.behaviour {
 	case "absent":
+		if sc.spool {
+			// with spooling on an outage is C07's subject; here only the hand-off bound and the sibling route are checked
+			out.backlog = true
+			break
+		}
 		rt.Flush() // barrier through the relay loop
 		out.connDown = counter(key, "unit=Metric.action=drop.reason=conn_down_no_spool") - down0
 		out.slowConn = counter(key, "unit=Metric.action=drop.reason=slow_conn") - slow0
@@ -253,7 +282,11 @@ func run(sc scenario) outcome {
 		for dl := time.Now().Add(15 * time.Second); ; {
 			rt.Flush()
 			stream = e.All()
-			out.received = bytes.Count(stream, []byte("\n")) - bytes.Count(stream, []byte("c06.warm."))
+			// this run's traffic and sentinels only (see the note on abandoned pushers above)
+			out.received = bytes.Count(stream, []byte("\n"+mine)) + bytes.Count(stream, []byte(fmt.Sprintf("\nc06.sentinel.%d.", runSeq)))
+			if bytes.HasPrefix(stream, []byte(mine)) {
+				out.received++
+			}
 			out.slowConn = counter(key, "unit=Metric.action=drop.reason=slow_conn") - slow0
 			out.connDown = counter(key, "unit=Metric.action=drop.reason=conn_down_no_spool") - down0
 			if int64(total) == int64(out.received)+out.slowConn || time.Now().After(dl) {
@@ -308,7 +341,8 @@ func TestPropBadEndpoint(t *testing.T) {
 			flush:     time.Duration(rapid.SampledFrom([]int{1, 10, 100}).Draw(t, "flushMs")) * time.Millisecond,
 			volume:    rapid.SampledFrom([]int{1, 2, 4, 8}).Draw(t, "volumeMB") << 20,
 			lineLen:   rapid.SampledFrom([]int{30, 70, 200}).Draw(t, "linelen"),
-			closeAt:   int64(rapid.SampledFrom([]int{1, 100, 5000, 200000}).Draw(t, "closeAfter")),
+			closeAt:   int64(rapid.SampledFrom([]int{1, 100, 5000, 200000, 1000000}).Draw(t, "closeAfter")),
+			spool:     rapid.Bool().Draw(t, "spool"),
 			throttle:  rapid.SampledFrom([]int{4096, 16384, 65536}).Draw(t, "throttle"),
 		}
 		if sc.behaviour == "throttled" && sc.volume > 4<<20 {
@@ -337,7 +371,7 @@ func TestPropBadEndpoint(t *testing.T) {
 		if o.accountErr != "" {
 			t.Fatalf("%s: %s", sc, o.accountErr)
 		}
-		rec.Case(sc.String(), o.backlog, "behaviour="+sc.behaviour, "rtype="+sc.rtype, fmt.Sprintf("drops>0=%v", o.slowConn+o.connDown > 0))
+		rec.Case(sc.String(), o.backlog, "behaviour="+sc.behaviour, "rtype="+sc.rtype, fmt.Sprintf("spool=%v", sc.spool), fmt.Sprintf("drops>0=%v", o.slowConn+o.connDown > 0))
 		rec.Num("lines_handed", int64(o.handed))
 		rec.Num("max_latency_us_sum", int64(o.maxLatency/time.Microsecond))
 	})
